@@ -4,10 +4,16 @@ package main
 
 import (
 	"fmt"
+	"go/ast"
+	"go/constant"
 	"go/token"
 	"go/types"
+	"math"
+	"math/big"
+	"sort"
 	"strings"
 
+	"golang.org/x/tools/go/ast/astutil"
 	"golang.org/x/tools/go/ssa"
 )
 
@@ -480,7 +486,7 @@ var w12Exceptions = map[string]string{}
 // ---------- S9: no loop goes round again with an error pending ----------
 
 func init() {
-	register("S9", "the interpreter stops at the first error: in every function of the module, an error variable that is live around a loop (a phi of type error at the loop header) receives on every back edge either its own previous value, nil, or a value that a test on that very edge shows to be nil - an instruction arm that assigns the error of a helper (flattening **kwargs, say) and then falls through to the next instruction would execute the call with half-bound arguments and report the error only when the function returns, or never", 1, ruleS9)
+	register("S9", "the interpreter stops at the first error: in every function of the module, (1) an error variable that is live around a loop (a phi of type error at the loop header) receives on every back edge either its own previous value, nil, or a value that a test on that very edge shows to be nil; (2) an error produced by a call inside a loop and kept in a variable is tested nil on every way back to the loop header; (3) no error result is assigned to a named variable that nothing reads (the blank identifier is a deliberate drop and is not counted) - an instruction arm that assigns the error of a helper (flattening **kwargs, say) and then falls through to the next instruction would execute the call with half-bound arguments and report the error only when the function returns, or never", 1, ruleS9)
 	claim("C08", "S9")
 	claim("C02", "S9")
 	claim("C07", "S9")
@@ -492,23 +498,18 @@ func ruleS9(c *Ctx) {
 		if !isProdPkg(fnPkgPath(fn)) {
 			continue
 		}
+		loops := naturalLoops(fn)
+		if len(loops) == 0 {
+			continue
+		}
+		// (1) an error variable that is live around a loop
 		for _, b := range fn.Blocks {
 			for _, in := range b.Instrs {
 				phi, ok := in.(*ssa.Phi)
 				if !ok {
 					break
 				}
-				if phi.Type().String() != "error" {
-					continue
-				}
-				// a loop header: some predecessor is dominated by this block
-				isHeader := false
-				for _, p := range b.Preds {
-					if b.Dominates(p) {
-						isHeader = true
-					}
-				}
-				if !isHeader {
+				if phi.Type().String() != "error" || loops[b] == nil {
 					continue
 				}
 				n++
@@ -536,8 +537,109 @@ func ruleS9(c *Ctx) {
 				}
 			}
 		}
+		// (2) an error produced inside a loop and kept in a variable that outlives the iteration (it
+		// reaches a phi or a return): the loop does not go round again without having tested it. This is
+		// the same obligation when the variable is re-assigned at the top of every iteration (`if err =
+		// thread.countStep(); err != nil`) and so is not live around the loop.
+		ord := 0
+		for _, b := range fn.Blocks {
+			// the innermost loop containing b
+			var h *ssa.BasicBlock
+			for hh, l := range loops {
+				if l[b] && (h == nil || len(l) < len(loops[h])) {
+					h = hh
+				}
+			}
+			if h == nil {
+				continue
+			}
+			loop := loops[h]
+			for _, in := range b.Instrs {
+				v, ok := in.(ssa.Value)
+				if !ok || v.Type().String() != "error" {
+					continue
+				}
+				switch x := in.(type) {
+				case *ssa.Call:
+				case *ssa.Extract:
+					if _, isCall := x.Tuple.(*ssa.Call); !isCall {
+						continue
+					}
+				default:
+					continue
+				}
+				// only errors that are kept: they flow into a phi (a variable assigned on several
+				// paths) or are stored
+				kept := false
+				if refs := v.Referrers(); refs != nil {
+					for _, r := range *refs {
+						switch r.(type) {
+						case *ssa.Phi, *ssa.Store:
+							kept = true
+						}
+					}
+				}
+				if !kept {
+					continue
+				}
+				n++
+				ord++
+				bad := false
+				for _, p := range h.Preds {
+					if !loop[p] || !(b == p || b.Dominates(p)) {
+						continue
+					}
+					if !s9KnownNil(v, p, h, map[ssa.Value]bool{}) {
+						bad = true
+					}
+				}
+				key := fmt.Sprintf("%s: error kept in a variable inside a loop #%d", fnName(fn), ord)
+				if bad {
+					c.viol(key, c.P.Pos(in.Pos()), "an error assigned to a variable inside the loop is not tested before the loop goes round again: the next iteration runs as if the failed step had succeeded (and may overwrite the error)")
+				} else {
+					c.ok(key, c.P.Pos(in.Pos()), "tested nil on every way back to the loop header")
+				}
+			}
+		}
 	}
-	c.note("%d error variables live around loops", n)
+	// (3) an error assigned to a variable and never looked at again: `x, err = f()` where nothing reads
+	// err before it is overwritten (the blank identifier produces no value at all, so deliberate drops
+	// are not counted)
+	for _, fn := range c.P.Funcs {
+		if !isProdPkg(fnPkgPath(fn)) {
+			continue
+		}
+		ord := 0
+		eachInstr(fn, func(in ssa.Instruction) {
+			ex, ok := in.(*ssa.Extract)
+			if !ok || ex.Type().String() != "error" {
+				return
+			}
+			if _, isCall := ex.Tuple.(*ssa.Call); !isCall {
+				return
+			}
+			used := false
+			if refs := ex.Referrers(); refs != nil {
+				for _, r := range *refs {
+					if _, dbg := r.(*ssa.DebugRef); !dbg {
+						used = true
+					}
+				}
+			}
+			if used {
+				return
+			}
+			// the blank identifier also produces an (unused) extract: look at the assignment's syntax
+			if lhsIsBlank(c.P, ex) {
+				return
+			}
+			n++
+			ord++
+			key := fmt.Sprintf("%s: error result assigned and never read #%d", fnName(fn), ord)
+			c.viol(key, c.P.Pos(ex.Tuple.Pos()), "the error result of "+calleeName(ex.Tuple.(*ssa.Call))+" is assigned to a variable that nothing reads before it is overwritten or goes out of scope: a failure of this step is silently ignored")
+		})
+	}
+	c.note("%d error values that outlive a loop iteration", n)
 }
 
 // s9KnownNil: on the edge pred->succ the value e is nil: a dominating test says so, or e is a phi all
@@ -938,13 +1040,20 @@ func (d *repDomain) valueSetOnEdge(v ssa.Value, at, to *ssa.BasicBlock, seen map
 				base[r] = true
 			}
 		}
-	case *ssa.Extract:
-		defBlock = x.Block()
+	case *ssa.Extract, *ssa.Call:
+		defBlock = v.(ssa.Instruction).Block()
 		anyBase = true
 		// a result of a helper of the module: what the helper can return (on its error-free returns, when
 		// the caller has tested the accompanying error before using the value)
-		call, ok := x.Tuple.(*ssa.Call)
-		if !ok {
+		var call *ssa.Call
+		resIdx := 0
+		if ex, ok := v.(*ssa.Extract); ok {
+			call, _ = ex.Tuple.(*ssa.Call)
+			resIdx = ex.Index
+		} else {
+			call = v.(*ssa.Call)
+		}
+		if call == nil {
 			break
 		}
 		h := call.Call.StaticCallee()
@@ -970,7 +1079,7 @@ func (d *repDomain) valueSetOnEdge(v ssa.Value, at, to *ssa.BasicBlock, seen map
 		anyBase = false
 		eachInstr(h, func(in ssa.Instruction) {
 			ret, ok := in.(*ssa.Return)
-			if !ok || x.Index >= len(ret.Results) {
+			if !ok || resIdx >= len(ret.Results) {
 				return
 			}
 			if errChecked && !isNilConst(ret.Results[errIdx]) {
@@ -978,7 +1087,7 @@ func (d *repDomain) valueSetOnEdge(v ssa.Value, at, to *ssa.BasicBlock, seen map
 					return // `return 0, fmt.Errorf(...)`: not seen by a caller that tested the error
 				}
 			}
-			s, a := d.valueSetOnEdge(ret.Results[x.Index], ret.Block(), nil, seen, depth+1)
+			s, a := d.valueSetOnEdge(ret.Results[resIdx], ret.Block(), nil, seen, depth+1)
 			if a {
 				anyBase = true
 			}
@@ -1180,7 +1289,7 @@ func naturalLoops(fn *ssa.Function) map[*ssa.BasicBlock]map[*ssa.BasicBlock]bool
 }
 
 func init() {
-	register("O19", "recursion is detected where interpreted code is entered: the comparison of the code of the function about to run (the receiver's funcode) with the code of the functions already on the thread's stack - the test behind 'called recursively' - is made in (*Function).CallInternal before its instruction loop (directly or in a helper called there). Every way of running a Starlark function passes through that method: the CALL instruction, starlark.Call from a host function, the key= callback of sorted/min/max. A check made only at the CALL instruction misses all the others", 1, ruleO19)
+	register("O19", "recursion is detected, and the frame-depth limit enforced, where interpreted code is entered: the comparison of the code of the function about to run (the receiver's funcode) with the code of the functions already on the thread's stack - the test behind 'called recursively' - is made in (*Function).CallInternal before its instruction loop (directly or in a helper called there). Every way of running a Starlark function passes through that method: the CALL instruction, starlark.Call from a host function, the key= callback of sorted/min/max. A check made only at the CALL instruction misses all the others", 1, ruleO19)
 	claim("C09", "O19")
 }
 
@@ -1265,6 +1374,60 @@ func ruleO19(c *Ctx) {
 			}
 		}
 	})
+	// the frame-depth limit (the guard against exhausting the Go stack when recursion is allowed) is
+	// enforced at the same door
+	{
+		isDepthTest := func(in ssa.Instruction) bool {
+			b, ok := in.(*ssa.BinOp)
+			if !ok || (b.Op != token.GTR && b.Op != token.GEQ) {
+				return false
+			}
+			k, isK := constInt(b.Y)
+			if !isK || k < 1000 {
+				return false
+			}
+			call, ok := b.X.(*ssa.Call)
+			if !ok {
+				return false
+			}
+			if bi, ok := call.Call.Value.(*ssa.Builtin); !ok || bi.Name() != "len" {
+				return false
+			}
+			return derivesFromField(call.Call.Args[0], "starlark.Thread", "stack")
+		}
+		var dEntry, dLoop []ssa.Instruction
+		eachInstr(fn, func(in ssa.Instruction) {
+			if isDepthTest(in) {
+				if mainLoop[in.Block()] {
+					dLoop = append(dLoop, in)
+				} else if reachable(in.Block(), mainH) {
+					dEntry = append(dEntry, in)
+				}
+			}
+			if call, ok := in.(*ssa.Call); ok && !mainLoop[call.Block()] && reachable(call.Block(), mainH) {
+				if cal := call.Call.StaticCallee(); cal != nil && relPkg(fnPkgPath(cal)) == "starlark" && len(cal.Blocks) > 0 {
+					found := false
+					eachInstr(cal, func(in2 ssa.Instruction) {
+						if isDepthTest(in2) {
+							found = true
+						}
+					})
+					if found {
+						dEntry = append(dEntry, call)
+					}
+				}
+			}
+		})
+		dkey := "(*starlark.Function).CallInternal: frame-depth limit on entry"
+		switch {
+		case len(dEntry) > 0:
+			c.ok(dkey, c.P.Pos(dEntry[0].Pos()), "the depth of the thread's stack is compared with the limit before the instruction loop")
+		case len(dLoop) > 0:
+			c.viol(dkey, c.P.Pos(dLoop[0].Pos()), "the stack depth is tested only inside the instruction loop (at the call instruction): Starlark functions entered through starlark.Call - key= callbacks, host built-ins calling back - are never depth-checked, so recursion through them runs until the Go stack is exhausted, which is fatal")
+		default:
+			c.viol(dkey, c.P.Pos(fn.Pos()), "CallInternal never compares the depth of the thread's stack with a limit: unbounded recursion exhausts the Go stack, which is fatal")
+		}
+	}
 	switch {
 	case len(entry) > 0:
 		c.ok(key, c.P.Pos(entry[0].Pos()), "the funcode of the function being entered is compared with the frames on the stack before the instruction loop")
@@ -1791,8 +1954,9 @@ func ruleE10(c *Ctx) {
 // ---------- J8: a recursive function has no scratch buffer outside its own activation ----------
 
 func init() {
-	register("J8", "a recursive function keeps no scratch buffer outside its own activation: a function (or function literal) that can call itself does not truncate to length zero and refill (`buf = append(buf[:0], ...)`) a slice that lives in a variable of an enclosing function or of the package and then go on reading that slice after a recursive call; the inner activation refills the same backing array, so the outer one continues with the inner one's data (json.encode of a struct nested in a struct would emit the inner struct's field names for the outer one)", 0, ruleJ8)
+	register("J8", "a recursive function keeps no scratch container outside its own activation: a function (or function literal) that can call itself does not empty (`buf[:0]`, `clear(m)`) and refill a slice or map that lives in a variable of an enclosing function, in the package or in a field of an object it was given (the receiver) and then go on reading it after a recursive call; the inner activation refills the same backing array, so the outer one continues with the inner one's data (json.encode of a struct nested in a struct would emit the inner struct's field names for the outer one)", 0, ruleJ8)
 	claim("C18", "J8")
+	claim("C09", "J8")
 	claim("C03", "J8")
 }
 
@@ -1824,35 +1988,54 @@ func ruleJ8(c *Ctx) {
 			continue
 		}
 		ord := 0
-		eachInstr(fn, func(in ssa.Instruction) {
-			sl, ok := in.(*ssa.Slice)
-			if !ok || sl.High == nil {
-				return
+		// storage outside the activation: a captured variable, a package-level one, or a field of an object
+		// the function was given (the receiver's scratch field)
+		outerOf := func(v ssa.Value) ssa.Value {
+			ld, ok := v.(*ssa.UnOp)
+			if !ok || ld.Op != token.MUL {
+				switch v.(type) {
+				case *ssa.FreeVar, *ssa.Global:
+					return v
+				}
+				return nil
 			}
-			if k, ok := constInt(sl.High); !ok || k != 0 {
-				return
-			}
-			// storage outside the activation: loaded from a captured variable or a package-level one,
-			// or an array that is one
-			var outer ssa.Value
-			switch x := sl.X.(type) {
-			case *ssa.UnOp:
-				if x.Op == token.MUL {
-					switch x.X.(type) {
-					case *ssa.FreeVar, *ssa.Global:
-						outer = x.X
+			switch a := ld.X.(type) {
+			case *ssa.FreeVar, *ssa.Global:
+				return a
+			case *ssa.FieldAddr:
+				tr := traceAddr(a)
+				for _, b := range tr.bases {
+					if _, isParam := b.v.(*ssa.Parameter); isParam {
+						return a
 					}
 				}
-			case *ssa.FreeVar, *ssa.Global:
-				outer = x
 			}
-			if outer == nil {
+			return nil
+		}
+		eachInstr(fn, func(in ssa.Instruction) {
+			var sl ssa.Value // the emptied container
+			var outer ssa.Value
+			switch x := in.(type) {
+			case *ssa.Slice:
+				if x.High == nil {
+					return
+				}
+				if k, ok := constInt(x.High); !ok || k != 0 {
+					return
+				}
+				sl, outer = x, outerOf(x.X)
+			case *ssa.Call:
+				if b, ok := x.Call.Value.(*ssa.Builtin); ok && b.Name() == "clear" && len(x.Call.Args) == 1 {
+					sl, outer = x.Call.Args[0], outerOf(x.Call.Args[0])
+				}
+			}
+			if sl == nil || outer == nil {
 				return
 			}
 			n++
 			ord++
 			key := fmt.Sprintf("%s: buffer #%d truncated to zero length", fnName(fn), ord)
-			pos := c.P.Pos(sl.Pos())
+			pos := c.P.Pos(in.Pos())
 			// values derived from the truncated slice: appends, phis, and what is loaded back from the
 			// variable it is stored into
 			derived := map[ssa.Value]bool{sl: true}
@@ -1891,7 +2074,7 @@ func ruleJ8(c *Ctx) {
 									stored = true
 								}
 							})
-							if stored && x != sl.X {
+							if stored {
 								derived[x] = true
 								changed = true
 							}
@@ -1910,12 +2093,16 @@ func ruleJ8(c *Ctx) {
 					base = x.X
 				case *ssa.Range:
 					base = x.X
+				case *ssa.Lookup:
+					base = x.X
+				case *ssa.MapUpdate:
+					base = x.Map
 				}
 				if base == nil || !derived[base] {
 					return
 				}
 				for _, rc := range rec {
-					if reachable(sl.Block(), rc.Block()) && reachable(rc.Block(), in2.Block()) {
+					if reachable(in.Block(), rc.Block()) && reachable(rc.Block(), in2.Block()) {
 						bad = true
 					}
 				}
@@ -2139,18 +2326,22 @@ func ruleJ9(c *Ctx) {
 				c.viol(key, pos, fmt.Sprintf("the decoder compares a byte taken directly from the input with %q and, where that fails, never compares the byte found after skipping white space with it: white space before the separator, which JSON allows, makes the document be rejected", rune(cm.k)))
 			}
 		}
-		for _, af := range fn.AnonFuncs {
-			visit(af)
-		}
 	}
-	visit(dec)
+	var fns []*ssa.Function
+	for f := range pkgReach(c.P, "lib/json", "decode") {
+		fns = append(fns, f)
+	}
+	sort.Slice(fns, func(i, j int) bool { return fnName(fns[i]) < fnName(fns[j]) })
+	for _, f := range fns {
+		visit(f)
+	}
 	c.note("%d comparisons with structural characters in json.decode", n)
 }
 
 // ---------- N13: sizes, counts and shift distances chosen by the script are not negative ----------
 
 func init() {
-	register("N13", "a size, repeat count or shift distance that comes straight from the script is not negative when it is used: make with a negative length, strings.Repeat/bytes.Repeat with a negative count and a shift by a negative signed distance all panic. For every such operand that is a script-supplied integer (an unpacked Go int, the result of AsInt32/Int64, possibly through phis and conversions, but not computed) the set of representative values that can reach the use - every constant the value is compared with and its neighbours, followed through helper results and call sites - contains no negative number", 1, ruleN13)
+	register("N13", "a size, repeat count or shift distance that comes straight from the script is not negative when it is used: make with a negative length, strings.Repeat/bytes.Repeat with a negative count and a shift by a negative signed distance all panic. For every such operand that is a script-supplied integer (an unpacked Go int, the result of AsInt32/Int64, possibly through phis and conversions, but not computed) the set of representative values that can reach the use - every constant the value is compared with and its neighbours, followed through helper results and call sites - contains no negative number", 0, ruleN13)
 	claim("C02", "N13")
 }
 
@@ -2228,3 +2419,1278 @@ func ruleN13(c *Ctx) {
 	}
 	c.note("%d sizes, counts and shift distances that are script integers", n)
 }
+
+// lhsIsBlank: in the assignment or definition whose right-hand side is the call that produced the
+// tuple, is the operand that receives result #ex.Index the blank identifier (or is there no such
+// assignment at all, as in an expression statement)?
+func lhsIsBlank(p *Prog, ex *ssa.Extract) bool {
+	call, ok := ex.Tuple.(*ssa.Call)
+	if !ok || call.Pos() == token.NoPos {
+		return true
+	}
+	for _, pk := range p.Pkgs {
+		for _, f := range pk.Syntax {
+			if call.Pos() < f.Pos() || call.Pos() > f.End() {
+				continue
+			}
+			path, _ := astutil.PathEnclosingInterval(f, call.Pos(), call.Pos())
+			for _, n := range path {
+				switch x := n.(type) {
+				case *ast.AssignStmt:
+					if len(x.Rhs) == 1 && ex.Index < len(x.Lhs) {
+						id, ok := x.Lhs[ex.Index].(*ast.Ident)
+						return ok && id.Name == "_"
+					}
+					return true
+				case *ast.ValueSpec:
+					if len(x.Values) == 1 && ex.Index < len(x.Names) {
+						return x.Names[ex.Index].Name == "_"
+					}
+					return true
+				case *ast.ExprStmt, *ast.ReturnStmt, *ast.BlockStmt:
+					return true
+				}
+			}
+			return true
+		}
+	}
+	return true
+}
+
+// pkgReach: the functions of one package of the module that the named function reaches through static
+// calls and function literals without leaving the package (the closures of json.decode, or the methods
+// of a decoder type it has been rewritten into).
+func pkgReach(p *Prog, pkgRel, root string) map[*ssa.Function]bool {
+	out := map[*ssa.Function]bool{}
+	r := p.Func(pkgRel, root)
+	if r == nil {
+		return out
+	}
+	work := []*ssa.Function{r}
+	for len(work) > 0 {
+		f := work[0]
+		work = work[1:]
+		if out[f] || relPkg(fnPkgPath(f)) != pkgRel {
+			continue
+		}
+		out[f] = true
+		work = append(work, f.AnonFuncs...)
+		eachInstr(f, func(in ssa.Instruction) {
+			for _, op := range in.Operands(nil) {
+				if g, ok := (*op).(*ssa.Function); ok {
+					work = append(work, g)
+				}
+			}
+			if ci, ok := in.(ssa.CallInstruction); ok {
+				if g := ci.Common().StaticCallee(); g != nil {
+					work = append(work, g)
+				}
+			}
+		})
+	}
+	return out
+}
+
+// ---------- N14: exact rational arithmetic is reached by finite floats only ----------
+
+func init() {
+	register("N14", "a float is converted to an exact rational only when it is finite: (Float).rational() returns nil for NaN and the infinities, and (*big.Rat).Cmp and friends dereference their operands. For every call of rational() on a float whose result is used without a nil test, the float is varied over representatives of every region (NaN, -Inf, the largest negative and positive finite values, -1, 0, 1, +Inf) and the branches that test it - comparisons with itself or constants, math.IsInf, math.IsNaN, finiteness predicates of the module, interpreted abstractly - must keep NaN and both infinities away from the call: `1 < float('-inf')` must be False, not a nil dereference", 2, ruleN14)
+	claim("C02", "N14")
+	claim("C11", "N14")
+}
+
+func floatRepEval(cond ssa.Value, v ssa.Value, r float64) (val, ok bool) {
+	isV := func(x ssa.Value) bool {
+		for i := 0; i < 4; i++ {
+			if x == v {
+				return true
+			}
+			switch y := x.(type) {
+			case *ssa.ChangeType:
+				x = y.X
+			case *ssa.Convert:
+				if bt, isB := y.X.Type().Underlying().(*types.Basic); isB && bt.Info()&types.IsFloat != 0 {
+					x = y.X
+				} else {
+					return false
+				}
+			default:
+				return false
+			}
+		}
+		return false
+	}
+	cv, neg := stripNot(cond)
+	switch x := cv.(type) {
+	case *ssa.BinOp:
+		var a, b float64
+		switch {
+		case isV(x.X) && isV(x.Y):
+			a, b = r, r
+		case isV(x.X):
+			k, isK := x.Y.(*ssa.Const)
+			if !isK || k.Value == nil {
+				return false, false
+			}
+			a, b = r, k.Float64()
+		case isV(x.Y):
+			k, isK := x.X.(*ssa.Const)
+			if !isK || k.Value == nil {
+				return false, false
+			}
+			a, b = k.Float64(), r
+		default:
+			return false, false
+		}
+		var res bool
+		switch x.Op {
+		case token.EQL:
+			res = a == b
+		case token.NEQ:
+			res = a != b
+		case token.LSS:
+			res = a < b
+		case token.LEQ:
+			res = a <= b
+		case token.GTR:
+			res = a > b
+		case token.GEQ:
+			res = a >= b
+		default:
+			return false, false
+		}
+		return res != neg, true
+	case *ssa.Call:
+		cal := x.Call.StaticCallee()
+		if cal == nil || len(x.Call.Args) == 0 || !isV(x.Call.Args[0]) {
+			return false, false
+		}
+		switch cal.String() {
+		case "math.IsNaN":
+			return math.IsNaN(r) != neg, true
+		case "math.IsInf":
+			if k, ok := constInt(x.Call.Args[1]); ok {
+				return math.IsInf(r, int(k)) != neg, true
+			}
+			return false, false
+		}
+		if strings.HasPrefix(fnPkgPath(cal), modPath) && len(cal.Params) == 1 {
+			if res, ok := sinterpFunc(cal, svFloat(r)); ok && res.k == 'b' {
+				return res.b != neg, true
+			}
+		}
+	}
+	return false, false
+}
+
+func floatRepReach(from, to *ssa.BasicBlock, v ssa.Value, r float64) bool {
+	type edge struct{ b, prev *ssa.BasicBlock }
+	seen := map[edge]bool{}
+	var dfs func(b, prev *ssa.BasicBlock, vals map[ssa.Value]bool) bool
+	dfs = func(b, prev *ssa.BasicBlock, vals map[ssa.Value]bool) bool {
+		if b == to {
+			return true
+		}
+		if seen[edge{b, prev}] {
+			return false
+		}
+		seen[edge{b, prev}] = true
+		// boolean phis (the value form of && and ||): decided by the edge we came in on
+		nv := vals
+		copied := false
+		for _, in := range b.Instrs {
+			phi, ok := in.(*ssa.Phi)
+			if !ok {
+				break
+			}
+			if bt, ok := phi.Type().Underlying().(*types.Basic); !ok || bt.Kind() != types.Bool {
+				continue
+			}
+			for i, p := range b.Preds {
+				if p != prev {
+					continue
+				}
+				e := phi.Edges[i]
+				var val, known bool
+				if k, ok := e.(*ssa.Const); ok && k.Value != nil {
+					val, known = k.Value.String() == "true", true
+				} else if pv, ok := vals[e]; ok {
+					val, known = pv, true
+				} else {
+					val, known = floatRepEval(e, v, r)
+				}
+				if !copied {
+					nv = map[ssa.Value]bool{}
+					for k2, v2 := range vals {
+						nv[k2] = v2
+					}
+					copied = true
+				}
+				if known {
+					nv[phi] = val
+				} else {
+					delete(nv, phi)
+				}
+			}
+		}
+		if len(b.Instrs) > 0 {
+			if ifi, ok := b.Instrs[len(b.Instrs)-1].(*ssa.If); ok {
+				cv, neg := stripNot(ifi.Cond)
+				val, ok := nv[cv]
+				if ok {
+					val = val != neg
+				} else {
+					val, ok = floatRepEval(ifi.Cond, v, r)
+				}
+				if ok {
+					if val {
+						return dfs(b.Succs[0], b, nv)
+					}
+					return dfs(b.Succs[1], b, nv)
+				}
+			}
+		}
+		for _, s := range b.Succs {
+			if dfs(s, b, nv) {
+				return true
+			}
+		}
+		return false
+	}
+	return dfs(from, nil, map[ssa.Value]bool{})
+}
+
+func ruleN14(c *Ctx) {
+	n := 0
+	reps := []float64{math.NaN(), math.Inf(-1), -math.MaxFloat64, -1, 0, 1, math.MaxFloat64, math.Inf(1)}
+	names := []string{"NaN", "-Inf", "-MaxFloat64", "-1", "0", "1", "MaxFloat64", "+Inf"}
+	calls := map[*ssa.Function][]*ssa.Call{}
+	for _, fn := range c.P.Funcs {
+		eachInstr(fn, func(in ssa.Instruction) {
+			if call, ok := in.(*ssa.Call); ok {
+				if cal := call.Call.StaticCallee(); cal != nil {
+					calls[cal] = append(calls[cal], call)
+				}
+			}
+		})
+	}
+	// which non-finite representatives can v be at block `at`?
+	var nonFinite func(v ssa.Value, at *ssa.BasicBlock, depth int) []string
+	nonFinite = func(v ssa.Value, at *ssa.BasicBlock, depth int) []string {
+		var out []string
+		add := func(s []string) {
+			for _, x := range s {
+				dup := false
+				for _, y := range out {
+					if x == y {
+						dup = true
+					}
+				}
+				if !dup {
+					out = append(out, x)
+				}
+			}
+		}
+		// strip conversions between float types
+		for {
+			if ct, ok := v.(*ssa.ChangeType); ok {
+				v = ct.X
+				continue
+			}
+			break
+		}
+		if k, ok := v.(*ssa.Const); ok && k.Value != nil {
+			f := k.Float64()
+			if math.IsNaN(f) || math.IsInf(f, 0) {
+				return []string{"constant"}
+			}
+			return nil
+		}
+		var defBlock *ssa.BasicBlock
+		base := map[int]bool{}
+		switch x := v.(type) {
+		case *ssa.Parameter:
+			fn := x.Parent()
+			defBlock = fn.Blocks[0]
+			idx := -1
+			for i, p := range fn.Params {
+				if p == x {
+					idx = i
+				}
+			}
+			exported := fn.Object() != nil && fn.Object().Exported()
+			if idx >= 0 && !exported && len(calls[fn]) > 0 && depth < 3 {
+				ok := true
+				var fromCallers []string
+				for _, call := range calls[fn] {
+					if idx >= len(call.Call.Args) {
+						ok = false
+						continue
+					}
+					fromCallers = append(fromCallers, nonFinite(call.Call.Args[idx], call.Block(), depth+1)...)
+				}
+				if ok {
+					for i, nm := range names {
+						for _, f := range fromCallers {
+							if f == nm || f == "constant" {
+								base[i] = true
+							}
+						}
+					}
+					break
+				}
+			}
+			for i := range reps {
+				base[i] = true
+			}
+		default:
+			if in, ok := v.(ssa.Instruction); ok {
+				defBlock = in.Block()
+			}
+			for i := range reps {
+				base[i] = true
+			}
+		}
+		var got []string
+		for i, r := range reps {
+			if !base[i] || !(math.IsNaN(r) || math.IsInf(r, 0)) {
+				continue
+			}
+			if defBlock == nil || defBlock.Parent() != at.Parent() || floatRepReach(defBlock, at, v, r) {
+				got = append(got, names[i])
+			}
+		}
+		add(got)
+		return out
+	}
+	for _, fn := range c.P.Funcs {
+		if !isProdPkg(fnPkgPath(fn)) {
+			continue
+		}
+		ord := 0
+		eachInstr(fn, func(in ssa.Instruction) {
+			call, ok := in.(*ssa.Call)
+			if !ok {
+				return
+			}
+			cal := call.Call.StaticCallee()
+			if cal == nil || cal.Name() != "rational" || cal.Signature.Recv() == nil || len(call.Call.Args) == 0 {
+				return
+			}
+			if bt, ok := cal.Signature.Recv().Type().Underlying().(*types.Basic); !ok || bt.Info()&types.IsFloat == 0 {
+				return
+			}
+			n++
+			ord++
+			key := fmt.Sprintf("%s: rational() of a float #%d", fnName(fn), ord)
+			pos := c.P.Pos(call.Pos())
+			// a result that is tested for nil before use needs no guard
+			if refs := call.Referrers(); refs != nil {
+				for _, r := range *refs {
+					if b, ok := r.(*ssa.BinOp); ok {
+						if x, _, isNil := nilTest(b); isNil && x == ssa.Value(call) {
+							c.ok(key, pos, "the result is tested for nil")
+							return
+						}
+					}
+				}
+			}
+			bad := nonFinite(call.Call.Args[0], call.Block(), 0)
+			if len(bad) == 0 {
+				c.ok(key, pos, "NaN and the infinities cannot reach the call")
+			} else {
+				c.viol(key, pos, fmt.Sprintf("the float can be %s when rational() is called (it passes every test on the way): the result is nil and the exact comparison or division that follows dereferences it, crashing the host", strings.Join(bad, " or ")))
+			}
+		})
+	}
+	c.note("%d calls of (Float).rational", n)
+}
+
+// ---------- F11: the frozen flag is never copied with its owner ----------
+
+func init() {
+	register("F11", "a frozen flag is set by Freeze and by nothing else: no value of a struct type that carries a frozen flag (List, Dict's hashtable, Set, Struct, Message ...) is copied wholesale (`z := *x`); the copy would start its life marked frozen (or share an iteration count), so when the module that built it finishes, Freeze returns at once and never descends into the new value's other, still mutable, components", 0, ruleF11)
+	claim("C04", "F11")
+	claim("C05", "F11")
+}
+
+func ruleF11(c *Ctx) {
+	hasFrozen := func(t types.Type) bool {
+		st, ok := t.Underlying().(*types.Struct)
+		if !ok {
+			return false
+		}
+		for i := 0; i < st.NumFields(); i++ {
+			if st.Field(i).Name() == "frozen" {
+				if bt, ok := st.Field(i).Type().Underlying().(*types.Basic); ok && bt.Kind() == types.Bool {
+					return true
+				}
+			}
+		}
+		return false
+	}
+	n := 0
+	for _, fn := range c.P.Funcs {
+		if !isProdPkg(fnPkgPath(fn)) {
+			continue
+		}
+		ord := 0
+		eachInstr(fn, func(in ssa.Instruction) {
+			ld, ok := in.(*ssa.UnOp)
+			if !ok || ld.Op != token.MUL || !hasFrozen(ld.Type()) {
+				return
+			}
+			if _, isNamed := ld.Type().(*types.Named); !isNamed {
+				return
+			}
+			// a load of the zero value just allocated (composite literal initialisation) is not a copy
+			if al, ok := ld.X.(*ssa.Alloc); ok && !al.Heap {
+				return
+			}
+			n++
+			ord++
+			key := fmt.Sprintf("%s: whole-value copy of %s #%d", fnName(fn), typeShort(ld.Type()), ord)
+			c.viol(key, c.P.Pos(ld.Pos()), "a value carrying a frozen flag is copied as a whole: the copy inherits the flag (and the iteration count) of the original, so a copy of a frozen value is never frozen properly - Freeze sees the flag and returns without visiting the copy's mutable components")
+		})
+	}
+	c.note("%d whole-value copies of flag-carrying structs", n)
+}
+
+// ---------- A12: the 'mandatory' marker never leaves the defaults tuple ----------
+
+func init() {
+	register("A12", "the marker for a required keyword-only parameter never reaches a program: Function.defaults holds a private sentinel value in the slots of keyword-only parameters that have no default. Every element read out of that tuple is tested against the sentinel type, and whatever else is done with it (bound to a parameter, returned to the host) happens only where the test said no; the tuple as a whole is only measured, indexed and frozen, never copied or ranged over in bulk - a nullary-call fast path that does copy(locals, fn.defaults) would make f() succeed with k bound to the marker", 2, ruleA12)
+	claim("C08", "A12")
+}
+
+func ruleA12(c *Ctx) {
+	n := 0
+	isSentinelTest := func(in ssa.Instruction, e ssa.Value) bool {
+		switch x := in.(type) {
+		case *ssa.TypeAssert:
+			_, tn := namedOf(x.AssertedType)
+			return x.X == e && x.CommaOk && tn == "mandatory"
+		case *ssa.Call:
+			cal := x.Call.StaticCallee()
+			if cal == nil || len(x.Call.Args) != 1 || x.Call.Args[0] != e {
+				return false
+			}
+			for _, ta := range cal.TypeArgs() {
+				if _, tn := namedOf(ta); tn == "mandatory" {
+					return true
+				}
+			}
+		}
+		return false
+	}
+	for _, fn := range c.P.Funcs {
+		if relPkg(fnPkgPath(fn)) != "starlark" {
+			continue
+		}
+		ord := 0
+		eachInstr(fn, func(in ssa.Instruction) {
+			ld, ok := in.(*ssa.UnOp)
+			if !ok || ld.Op != token.MUL {
+				return
+			}
+			fa, ok := ld.X.(*ssa.FieldAddr)
+			if !ok {
+				return
+			}
+			if _, tn := namedOf(fa.X.Type()); tn != "Function" {
+				return
+			}
+			if deref(fa.X.Type()).Underlying().(*types.Struct).Field(fa.Field).Name() != "defaults" {
+				return
+			}
+			refs := ld.Referrers()
+			if refs == nil {
+				return
+			}
+			for _, r := range *refs {
+				var elem ssa.Value
+				switch x := r.(type) {
+				case *ssa.DebugRef:
+					continue
+				case *ssa.Call:
+					if b, ok := x.Call.Value.(*ssa.Builtin); ok && b.Name() == "len" {
+						continue
+					}
+					if cal := x.Call.StaticCallee(); cal != nil && cal.Name() == "Freeze" {
+						continue
+					}
+				case *ssa.Index:
+					elem = x
+				case *ssa.IndexAddr:
+					if er := x.Referrers(); er != nil {
+						for _, rr := range *er {
+							if l, ok := rr.(*ssa.UnOp); ok && l.Op == token.MUL {
+								elem = l
+							}
+						}
+					}
+				}
+				if elem == nil {
+					// only the bulk reads count: copy/append of the tuple, ranging over it, slicing it,
+					// returning it; handing it to a helper that freezes it is not a read of its elements
+					bulk := false
+					switch x := r.(type) {
+					case *ssa.Call:
+						if b, ok := x.Call.Value.(*ssa.Builtin); ok && (b.Name() == "copy" || b.Name() == "append") {
+							bulk = true
+						}
+					case *ssa.Range, *ssa.Slice, *ssa.Return:
+						bulk = true
+					}
+					if !bulk {
+						continue
+					}
+				}
+				n++
+				ord++
+				key := fmt.Sprintf("%s: use of Function.defaults #%d", fnName(fn), ord)
+				pos := c.P.Pos(r.Pos())
+				if elem == nil {
+					c.viol(key, pos, fmt.Sprintf("the defaults tuple is used as a whole (%T): its sentinel entries for required keyword-only parameters are not filtered out and reach the program as ordinary values", r))
+					continue
+				}
+				// the element, also seen through a conversion to another interface type (is[T](any(v)))
+				aliases := []ssa.Value{elem}
+				if er := elem.Referrers(); er != nil {
+					for _, rr := range *er {
+						if ci, ok := rr.(*ssa.ChangeInterface); ok {
+							aliases = append(aliases, ci)
+						}
+					}
+				}
+				var uses []ssa.Instruction // (instruction, through which alias)
+				var usesOf []ssa.Value
+				for _, a := range aliases {
+					if ar := a.Referrers(); ar != nil {
+						for _, rr := range *ar {
+							if ci, ok := rr.(*ssa.ChangeInterface); ok && a == elem {
+								_ = ci
+								continue
+							}
+							uses = append(uses, rr)
+							usesOf = append(usesOf, a)
+						}
+					}
+				}
+				// the test of this element
+				var testIf *ssa.If
+				var testOnTrue bool // the branch on which the element IS the sentinel
+				{
+					for ui, rr := range uses {
+						if !isSentinelTest(rr, usesOf[ui]) {
+							continue
+						}
+						var cond ssa.Value = rr.(ssa.Value)
+						if ta, ok := rr.(*ssa.TypeAssert); ok {
+							if tr := ta.Referrers(); tr != nil {
+								for _, x := range *tr {
+									if ex, ok := x.(*ssa.Extract); ok && ex.Index == 1 {
+										cond = ex
+									}
+								}
+							}
+						}
+						if cr := cond.Referrers(); cr != nil {
+							for _, x := range *cr {
+								if ifi, ok := x.(*ssa.If); ok {
+									testIf, testOnTrue = ifi, true
+								}
+							}
+						}
+					}
+				}
+				if testIf == nil {
+					c.viol(key, pos, "an element of the defaults tuple is used without being tested against the 'mandatory' sentinel")
+					continue
+				}
+				bad := false
+				{
+					for ui, rr := range uses {
+						elem := usesOf[ui]
+						if isSentinelTest(rr, elem) {
+							continue
+						}
+						if _, dbg := rr.(*ssa.DebugRef); dbg {
+							continue
+						}
+						okEdge := false
+						for _, pc := range pathConds(rr.Block()) {
+							if pc.If == testIf && pc.Branch != testOnTrue {
+								okEdge = true
+							}
+						}
+						if phi, isPhi := rr.(*ssa.Phi); isPhi {
+							// judged on the incoming edge
+							okEdge = true
+							for i, e := range phi.Edges {
+								if e != elem {
+									continue
+								}
+								edgeOK := false
+								p := phi.Block().Preds[i]
+								conds := pathConds(p)
+								if len(p.Instrs) > 0 {
+									if ifi, ok := p.Instrs[len(p.Instrs)-1].(*ssa.If); ok && p.Succs[0] != p.Succs[1] {
+										conds = append(conds, pathCond{ifi, p.Succs[0] == phi.Block()})
+									}
+								}
+								for _, pc := range conds {
+									if pc.If == testIf && pc.Branch != testOnTrue {
+										edgeOK = true
+									}
+								}
+								if !edgeOK {
+									okEdge = false
+								}
+							}
+						}
+						if !okEdge {
+							bad = true
+						}
+					}
+				}
+				if bad {
+					c.viol(key, pos, "an element of the defaults tuple is bound or returned on a path where the test against the 'mandatory' sentinel has not excluded it")
+				} else {
+					c.ok(key, pos, "tested against the sentinel; used only where the test said no")
+				}
+			}
+		})
+	}
+	c.note("%d uses of Function.defaults", n)
+}
+
+// ---------- I15: big.Int.Int64/Uint64 are applied to representable values only ----------
+
+func init() {
+	register("I15", "the machine-word view of a big integer is taken only when it is exact: (*big.Int).Int64 and Uint64 are undefined (they wrap) for values outside the type's range. A call whose receiver is tested with IsInt64/IsUint64 on the way is fine; where the receiver is a parameter of the enclosing function (bigintToInt64, isSmall, MakeBigInt), the function is interpreted abstractly with the parameter set to each of fifteen boundary values (0, +-1, +-2^31, +-2^63, +-2^64 and their neighbours) - method results such as Sign, BitLen, Cmp with the package's limit constants, IsInt64 are computed on the representative, helper predicates are interpreted in turn, branches on anything else are explored both ways - and no execution may reach Int64/Uint64 with a value that does not fit: accepting +2^63 as int64 would make len(range(1<<63)) zero", 3, ruleI15)
+	claim("C10", "I15")
+	claim("C08", "I15")
+}
+
+type bval struct {
+	k byte // 'i' int64/bool-as-int, 'B' big, 0 unknown
+	i int64
+	b *big.Int
+}
+
+type bigRun struct {
+	p       *Prog
+	globals map[*ssa.Global]*big.Int
+	bad     map[*ssa.Call]string // call site -> representative that must not reach it
+	budget  int
+}
+
+func (r *bigRun) evalCall(call *ssa.Call, env map[ssa.Value]bval, depth int) bval {
+	cal := call.Call.StaticCallee()
+	if cal == nil {
+		return bval{}
+	}
+	args := make([]bval, len(call.Call.Args))
+	for i, a := range call.Call.Args {
+		args[i] = r.eval(a, env)
+	}
+	name := cal.String()
+	if strings.HasPrefix(name, "(*math/big.Int).") && len(args) > 0 && args[0].k == 'B' {
+		x := args[0].b
+		switch cal.Name() {
+		case "Sign":
+			return bval{k: 'i', i: int64(x.Sign())}
+		case "BitLen":
+			return bval{k: 'i', i: int64(x.BitLen())}
+		case "IsInt64":
+			return bval{k: 'i', i: b2i64(x.IsInt64())}
+		case "IsUint64":
+			return bval{k: 'i', i: b2i64(x.IsUint64())}
+		case "Cmp":
+			if len(args) > 1 && args[1].k == 'B' {
+				return bval{k: 'i', i: int64(x.Cmp(args[1].b))}
+			}
+		case "Int64":
+			if !x.IsInt64() {
+				r.bad[call] = x.String()
+			}
+			return bval{k: 'i', i: x.Int64()}
+		case "Uint64":
+			if !x.IsUint64() {
+				r.bad[call] = x.String()
+			}
+			return bval{k: 'i', i: int64(x.Uint64())}
+		}
+		return bval{}
+	}
+	// a helper of the module given the big value: interpret it for its result
+	if strings.HasPrefix(fnPkgPath(cal), modPath) && len(cal.Blocks) > 0 && depth < 3 && len(cal.Params) == len(args) {
+		hasBig := false
+		for _, a := range args {
+			if a.k == 'B' {
+				hasBig = true
+			}
+		}
+		if hasBig {
+			sub := map[ssa.Value]bval{}
+			for i, p := range cal.Params {
+				sub[p] = args[i]
+			}
+			rets := r.run(cal, sub, depth+1)
+			if len(rets) == 1 {
+				return rets[0]
+			}
+		}
+	}
+	return bval{}
+}
+
+func b2i64(b bool) int64 {
+	if b {
+		return 1
+	}
+	return 0
+}
+
+func (r *bigRun) eval(v ssa.Value, env map[ssa.Value]bval) bval {
+	if x, ok := env[v]; ok {
+		return x
+	}
+	switch x := v.(type) {
+	case *ssa.Const:
+		if x.Value == nil {
+			return bval{}
+		}
+		switch x.Value.Kind() {
+		case constant.Bool:
+			return bval{k: 'i', i: b2i64(constant.BoolVal(x.Value))}
+		case constant.Int:
+			if i, ok := constant.Int64Val(x.Value); ok {
+				return bval{k: 'i', i: i}
+			}
+		}
+	case *ssa.UnOp:
+		if x.Op == token.MUL {
+			if g, ok := x.X.(*ssa.Global); ok {
+				if b, ok := r.globals[g]; ok {
+					return bval{k: 'B', b: b}
+				}
+			}
+		}
+	}
+	return bval{}
+}
+
+// run explores fn from its entry; it returns the distinct values of the first result it can determine
+// (an empty or multi-element slice means "not a single known value").
+func (r *bigRun) run(fn *ssa.Function, env map[ssa.Value]bval, depth int) []bval {
+	var rets []bval
+	unknownRet := false
+	var walk func(b, prev *ssa.BasicBlock, env map[ssa.Value]bval, steps int)
+	walk = func(b, prev *ssa.BasicBlock, env map[ssa.Value]bval, steps int) {
+		if steps > 60 || r.budget <= 0 {
+			unknownRet = true
+			return
+		}
+		r.budget--
+		for _, in := range b.Instrs {
+			switch x := in.(type) {
+			case *ssa.Phi:
+				for i, p := range b.Preds {
+					if p == prev {
+						env[x] = r.eval(x.Edges[i], env)
+					}
+				}
+			case *ssa.Call:
+				env[x] = r.evalCall(x, env, depth)
+			case *ssa.Extract:
+				if x.Index == 0 {
+					env[x] = r.eval(x.Tuple, env)
+				}
+			case *ssa.Convert:
+				a := r.eval(x.X, env)
+				if a.k == 'i' {
+					if bt := basicOf(x.Type()); bt != nil && bt.Info()&types.IsInteger != 0 {
+						env[x] = bval{k: 'i', i: wrapTo(x.Type(), svInt(a.i)).i}
+						if bt.Info()&types.IsUnsigned != 0 {
+							env[x] = bval{} // unsigned values are not modelled beyond comparisons with themselves
+						}
+					}
+				}
+			case *ssa.ChangeType:
+				env[x] = r.eval(x.X, env)
+			case *ssa.UnOp:
+				a := r.eval(x.X, env)
+				switch {
+				case x.Op == token.NOT && a.k == 'i':
+					env[x] = bval{k: 'i', i: 1 - a.i}
+				case x.Op == token.SUB && a.k == 'i':
+					env[x] = bval{k: 'i', i: -a.i}
+				case x.Op == token.MUL:
+					if v := r.eval(x, env); v.k != 0 {
+						env[x] = v
+					}
+				}
+			case *ssa.BinOp:
+				a, bb := r.eval(x.X, env), r.eval(x.Y, env)
+				if a.k == 'i' && bb.k == 'i' {
+					var res int64
+					ok := true
+					switch x.Op {
+					case token.EQL:
+						res = b2i64(a.i == bb.i)
+					case token.NEQ:
+						res = b2i64(a.i != bb.i)
+					case token.LSS:
+						res = b2i64(a.i < bb.i)
+					case token.LEQ:
+						res = b2i64(a.i <= bb.i)
+					case token.GTR:
+						res = b2i64(a.i > bb.i)
+					case token.GEQ:
+						res = b2i64(a.i >= bb.i)
+					case token.ADD:
+						res = a.i + bb.i
+					case token.SUB:
+						res = a.i - bb.i
+					case token.AND:
+						res = a.i & bb.i
+					case token.OR:
+						res = a.i | bb.i
+					default:
+						ok = false
+					}
+					if ok {
+						env[x] = bval{k: 'i', i: res}
+					}
+				}
+			case *ssa.If:
+				cnd := r.eval(x.Cond, env)
+				if cnd.k == 'i' {
+					if cnd.i != 0 {
+						walk(b.Succs[0], b, env, steps+1)
+					} else {
+						walk(b.Succs[1], b, env, steps+1)
+					}
+					return
+				}
+				for _, s := range b.Succs {
+					cp := make(map[ssa.Value]bval, len(env))
+					for k, v := range env {
+						cp[k] = v
+					}
+					walk(s, b, cp, steps+1)
+				}
+				return
+			case *ssa.Jump:
+				walk(b.Succs[0], b, env, steps+1)
+				return
+			case *ssa.Return:
+				if len(x.Results) > 0 {
+					v := r.eval(x.Results[0], env)
+					if v.k == 0 {
+						unknownRet = true
+					} else {
+						dup := false
+						for _, o := range rets {
+							if o.k == v.k && o.i == v.i && (o.k != 'B' || o.b.Cmp(v.b) == 0) {
+								dup = true
+							}
+						}
+						if !dup {
+							rets = append(rets, v)
+						}
+					}
+				}
+				return
+			case *ssa.Panic:
+				return
+			}
+		}
+	}
+	walk(fn.Blocks[0], nil, env, 0)
+	if unknownRet {
+		return nil
+	}
+	return rets
+}
+
+func ruleI15(c *Ctx) {
+	// the package's big constants: globals assigned new(big.Int).SetInt64(k) / big.NewInt(k) in init
+	globals := map[*ssa.Global]*big.Int{}
+	var inits []*ssa.Function
+	inits = append(inits, c.P.InitFuncs...)
+	for _, fn := range c.P.Funcs {
+		if isProdPkg(fnPkgPath(fn)) && strings.HasPrefix(fn.Name(), "init") {
+			inits = append(inits, fn)
+		}
+	}
+	for _, fn := range inits {
+		eachInstr(fn, func(in ssa.Instruction) {
+			st, ok := in.(*ssa.Store)
+			if !ok {
+				return
+			}
+			g, ok := st.Addr.(*ssa.Global)
+			if !ok {
+				return
+			}
+			call, ok := st.Val.(*ssa.Call)
+			if !ok {
+				return
+			}
+			cal := call.Call.StaticCallee()
+			if cal == nil {
+				return
+			}
+			switch cal.String() {
+			case "math/big.NewInt":
+				if k, ok := constInt(call.Call.Args[0]); ok {
+					globals[g] = big.NewInt(k)
+				}
+			case "(*math/big.Int).SetInt64":
+				if k, ok := constInt(call.Call.Args[1]); ok {
+					globals[g] = big.NewInt(k)
+				}
+			case "(*math/big.Int).SetUint64":
+				if kc, ok := call.Call.Args[1].(*ssa.Const); ok && kc.Value != nil {
+					if u, ok := constant.Uint64Val(kc.Value); ok {
+						globals[g] = new(big.Int).SetUint64(u)
+					}
+				}
+			}
+		})
+	}
+	var reps []*big.Int
+	for _, e := range []uint{31, 32, 63, 64} {
+		p := new(big.Int).Lsh(big.NewInt(1), e)
+		for _, d := range []int64{-1, 0, 1} {
+			v := new(big.Int).Add(p, big.NewInt(d))
+			reps = append(reps, v, new(big.Int).Neg(v))
+		}
+	}
+	reps = append(reps, big.NewInt(0), big.NewInt(1), big.NewInt(-1))
+	n := 0
+	for _, fn := range c.P.Funcs {
+		if !isProdPkg(fnPkgPath(fn)) || len(fn.Blocks) == 0 {
+			continue
+		}
+		ord := 0
+		var sites []*ssa.Call
+		eachInstr(fn, func(in ssa.Instruction) {
+			call, ok := in.(*ssa.Call)
+			if !ok {
+				return
+			}
+			if cal := call.Call.StaticCallee(); cal != nil && (cal.String() == "(*math/big.Int).Int64" || cal.String() == "(*math/big.Int).Uint64") {
+				sites = append(sites, call)
+			}
+		})
+		if len(sites) == 0 {
+			continue
+		}
+		// run the function once per representative for each *big.Int parameter
+		bad := map[*ssa.Call]string{}
+		covered := map[*ssa.Call]bool{}
+		for _, p := range fn.Params {
+			if p.Type().String() != "*math/big.Int" {
+				continue
+			}
+			for _, s := range sites {
+				if s.Call.Args[0] == ssa.Value(p) {
+					covered[s] = true
+				}
+			}
+			for _, rep := range reps {
+				r := &bigRun{p: c.P, globals: globals, bad: bad, budget: 4000}
+				r.run(fn, map[ssa.Value]bval{p: {k: 'B', b: rep}}, 0)
+			}
+		}
+		for _, s := range sites {
+			n++
+			ord++
+			what := s.Call.StaticCallee().Name()
+			key := fmt.Sprintf("%s: %s() of a big integer #%d", fnName(fn), what, ord)
+			pos := c.P.Pos(s.Pos())
+			// (A) a dominating IsInt64/IsUint64 on the same receiver
+			guarded := false
+			for _, f := range pathFacts(s.Block()) {
+				if gc, ok := f.Cond.(*ssa.Call); ok && f.Truth {
+					if cal := gc.Call.StaticCallee(); cal != nil && cal.String() == "(*math/big.Int).Is"+what && gc.Call.Args[0] == s.Call.Args[0] {
+						guarded = true
+					}
+				}
+			}
+			// (C) a dominating predicate of the module on the same value: interpreted for every
+			// representative, it must be true only for values that fit
+			predOK, predName := false, ""
+			for _, f := range pathFacts(s.Block()) {
+				gc, ok := f.Cond.(*ssa.Call)
+				if !ok || guarded || predOK {
+					continue
+				}
+				cal := gc.Call.StaticCallee()
+				if cal == nil || !strings.HasPrefix(fnPkgPath(cal), modPath) || len(cal.Blocks) == 0 {
+					continue
+				}
+				ai := -1
+				for i, a := range gc.Call.Args {
+					if a == s.Call.Args[0] {
+						ai = i
+					}
+				}
+				if ai < 0 || ai >= len(cal.Params) {
+					continue
+				}
+				all := true
+				for _, rep := range reps {
+					fits := rep.IsInt64()
+					if what == "Uint64" {
+						fits = rep.IsUint64()
+					}
+					if fits {
+						continue
+					}
+					r := &bigRun{p: c.P, globals: globals, bad: map[*ssa.Call]string{}, budget: 4000}
+					rets := r.run(cal, map[ssa.Value]bval{cal.Params[ai]: {k: 'B', b: rep}}, 0)
+					if len(rets) != 1 || rets[0].k != 'i' || (rets[0].i != 0) == f.Truth {
+						all = false
+						bad[s] = rep.String()
+					}
+				}
+				if all {
+					predOK, predName = true, fnName(cal)
+				}
+			}
+			switch {
+			case guarded:
+				c.ok(key, pos, "dominated by Is"+what+"() on the same value")
+			case predOK:
+				c.ok(key, pos, fmt.Sprintf("dominated by %s, which holds for none of the boundary values that do not fit", predName))
+			case bad[s] != "":
+				c.viol(key, pos, fmt.Sprintf("%s() is reached with the value %s, which does not fit: the result wraps and the caller takes it for exact", what, bad[s]))
+			case covered[s]:
+				c.ok(key, pos, fmt.Sprintf("interpreted for %d boundary values of the parameter: only representable values reach the call", len(reps)))
+			default:
+				c.viol(key, pos, what+"() is applied to a big integer that is neither tested with Is"+what+"() nor a parameter whose range the function checks")
+			}
+		}
+	}
+	c.note("%d calls of (*big.Int).Int64/Uint64", n)
+}
+
+// ---------- N15: the caller of Index/SetIndex keeps the index in range ----------
+
+func init() {
+	register("N15", "the index contract of Indexable/HasSetIndex is honoured by every caller: the interfaces promise implementations an index in [0, Len()), and implementations (List, Tuple, range, proto repeated fields, host types) index their storage without looking. Wherever the value packages call Index(i) or SetIndex(i, v) through an interface, i is on every path known to be non-negative (a dominating test, a constant, or a loop counter that starts at a non-negative constant and is only incremented) and below a length (a dominating i < n / !(i >= n) where n comes from Len() or len()); moving the upper-bound test of x[i] = v out of the evaluator into List.SetIndex leaves every other implementation unprotected", 2, ruleN15)
+	claim("C02", "N15")
+	claim("C20", "N15")
+}
+
+func ruleN15(c *Ctx) {
+	n := 0
+	isLen0 := func(v ssa.Value) bool {
+		for x := range backSlice(v) {
+			call, ok := x.(*ssa.Call)
+			if !ok {
+				continue
+			}
+			if b, ok := call.Call.Value.(*ssa.Builtin); ok && b.Name() == "len" {
+				return true
+			}
+			if call.Call.IsInvoke() && call.Call.Method.Name() == "Len" {
+				return true
+			}
+			if cal := call.Call.StaticCallee(); cal != nil && (cal.Name() == "Len" || cal.Name() == "len") {
+				return true
+			}
+		}
+		return false
+	}
+	// a loop counter from a non-negative constant, only incremented
+	var counter func(v ssa.Value, seen map[ssa.Value]bool) bool
+	counter = func(v ssa.Value, seen map[ssa.Value]bool) bool {
+		if seen[v] {
+			return true
+		}
+		seen[v] = true
+		switch x := v.(type) {
+		case *ssa.Const:
+			k, ok := constInt(x)
+			return ok && k >= 0
+		case *ssa.Phi:
+			for _, e := range x.Edges {
+				if !counter(e, seen) {
+					return false
+				}
+			}
+			return true
+		case *ssa.BinOp:
+			if x.Op == token.ADD {
+				if k, ok := constInt(x.Y); ok && k >= 0 {
+					return counter(x.X, seen)
+				}
+			}
+		}
+		return false
+	}
+	// boundsAt: is idx known to be >= 0, and below a length, at block b?
+	var boundsAt func(idx ssa.Value, b *ssa.BasicBlock, isLen func(ssa.Value) bool, depth int) (bool, bool)
+	boundsAt = func(idx ssa.Value, b *ssa.BasicBlock, isLen func(ssa.Value) bool, depth int) (lower, upper bool) {
+		cands := map[ssa.Value]bool{idx: true}
+		if k, ok := constInt(idx); ok && k >= 0 {
+			lower = true
+		}
+		if counter(idx, map[ssa.Value]bool{}) {
+			lower = true
+		}
+		// the index was normalised by a helper of the module that returns (index, error): what holds at the
+		// helper's error-free returns holds here, once the error has been tested
+		if ex, ok := idx.(*ssa.Extract); ok && depth < 2 {
+			if hc, ok := ex.Tuple.(*ssa.Call); ok {
+				h := hc.Call.StaticCallee()
+				if h != nil && len(h.Blocks) > 0 && strings.HasPrefix(fnPkgPath(h), modPath) && len(h.Params) == len(hc.Call.Args) {
+					res := h.Signature.Results()
+					errIdx := res.Len() - 1
+					checked := false
+					if res.Len() > 1 && res.At(errIdx).Type().String() == "error" {
+						if refs := hc.Referrers(); refs != nil {
+							for _, r := range *refs {
+								if e2, ok := r.(*ssa.Extract); ok && e2.Index == errIdx && dominatedByNilErr(b, e2) {
+									checked = true
+								}
+							}
+						}
+					}
+					if checked {
+						hl, hu, any := true, true, false
+						subLen := func(x ssa.Value) bool {
+							for pi, p := range h.Params {
+								if x == ssa.Value(p) && isLen(hc.Call.Args[pi]) {
+									return true
+								}
+							}
+							return isLen0(x)
+						}
+						eachInstr(h, func(in ssa.Instruction) {
+							ret, ok := in.(*ssa.Return)
+							if !ok || ex.Index >= len(ret.Results) {
+								return
+							}
+							if !isNilConst(ret.Results[errIdx]) {
+								return
+							}
+							any = true
+							l, u := boundsAt(ret.Results[ex.Index], ret.Block(), subLen, depth+1)
+							hl, hu = hl && l, hu && u
+						})
+						if any {
+							lower, upper = lower || hl, upper || hu
+						}
+					}
+				}
+			}
+		}
+		facts := pathFacts(b)
+		// a range predicate of the module (validIndex(i, n)): its facts, with its parameters standing
+		// for the arguments
+		argOf := map[ssa.Value]ssa.Value{}
+		for _, pf := range facts {
+			hf, h, args := helperFacts(pf)
+			if h == nil {
+				continue
+			}
+			for i, a := range args {
+				if i < len(h.Params) {
+					argOf[h.Params[i]] = a
+					if cands[a] {
+						cands[h.Params[i]] = true
+					}
+				}
+			}
+			facts = append(facts, hf...)
+		}
+		for _, f := range facts {
+			bo, ok := f.Cond.(*ssa.BinOp)
+			if !ok {
+				continue
+			}
+			op := bo.Op
+			var other ssa.Value
+			switch {
+			case cands[bo.X]:
+				other = bo.Y
+			case cands[bo.Y]:
+				other = bo.X
+				op = i9Flip(op)
+			default:
+				continue
+			}
+			if !f.Truth {
+				op = i9Neg(op)
+			}
+			if a, ok := argOf[other]; ok {
+				other = a
+			}
+			switch op {
+			case token.GEQ, token.GTR:
+				if k, ok := constInt(other); ok && k >= -1 {
+					if op == token.GEQ && k >= 0 || op == token.GTR && k >= -1 {
+						lower = true
+					}
+				}
+			case token.LSS, token.LEQ:
+				if op == token.LSS && isLen(other) {
+					upper = true
+				}
+			}
+		}
+		return
+	}
+	for _, fn := range c.P.Funcs {
+		pk := relPkg(fnPkgPath(fn))
+		if !isProdPkg(fnPkgPath(fn)) || !(pk == "starlark" || pk == "starlarkstruct" || strings.HasPrefix(pk, "lib/")) {
+			continue
+		}
+		ord := map[string]int{}
+		eachInstr(fn, func(in ssa.Instruction) {
+			call, ok := in.(*ssa.Call)
+			if !ok || !call.Call.IsInvoke() {
+				return
+			}
+			m := call.Call.Method.Name()
+			if (m != "Index" && m != "SetIndex") || len(call.Call.Args) == 0 {
+				return
+			}
+			idx := call.Call.Args[0]
+			if bt, ok := idx.Type().Underlying().(*types.Basic); !ok || bt.Kind() != types.Int {
+				return
+			}
+			n++
+			kb := fmt.Sprintf("%s: %s through an interface", fnName(fn), m)
+			ord[kb]++
+			key := kb
+			if ord[kb] > 1 {
+				key = fmt.Sprintf("%s #%d", kb, ord[kb])
+			}
+			pos := c.P.Pos(call.Pos())
+			lower, upper := boundsAt(idx, call.Block(), isLen0, 0)
+			switch {
+			case lower && upper:
+				c.ok(key, pos, "the index is known to be in [0, length) where the method is called")
+			case n15Exceptions[key] != "":
+				c.except(key, pos, n15Exceptions[key])
+			default:
+				miss := "a lower"
+				if lower {
+					miss = "an upper"
+				}
+				c.viol(key, pos, fmt.Sprintf("%s is called through an interface without %s bound on the index being established on the way: implementations index their storage without checking (a proto repeated field panics), so an out-of-range index crashes the host", m, miss))
+			}
+		})
+	}
+	c.note("%d interface calls of Index/SetIndex", n)
+}
+
+var n15Exceptions = map[string]string{}
